@@ -455,7 +455,10 @@ func configs(tier string, seed int64) []cfg {
 	helperSets := [][]string{{"rsets3", "rsets13"}, {"rsets5", "rsets8", "rsets13"}, {"addfps16f8", "multfps16f8"}, {"addfps16f8", "addfps8f4"}, {"multfps16f8", "divfps16f8", "addfps16f8"},
 		{"push4t", "pull4t", "push16uu", "pull16uu"}, {"push4t", "push16uu"}, {"callo8s", "ret8s", "callo4st", "ret4st"}, {"callo8s", "calla8s", "ret8s", "push4t", "pull4t"},
 		{"addf", "multf"}, {"addf", "divf"}, {"multf", "divf"}, {"addf", "multf", "divf", "jgt0f"}, {"addf16", "multf16", "divf16"}, {"addp", "multp"}, {"addp", "divp"}, {"multp", "divp", "addp"},
-		{"addlqs8t1", "multlqs8t1"}, {"addfps16f8", "addp", "rsets5"}}
+		{"addlqs8t1", "multlqs8t1"}, {"addfps16f8", "addp", "rsets5"},
+		// a call stack and a register stack of the same depth and name in one processor: two different
+		// hardware stacks (restack…/regstack…) whose opcode names share the suffix
+		{"callo4s", "ret4s", "push4s", "pull4s"}, {"ret4s", "push4s", "pull4s"}, {"calla8t", "ret8t", "pull8t"}, {"callo4s", "calla4s", "ret4s", "push4s", "pull4s", "push8s", "pull8s"}}
 	for hi, hs := range helperSets {
 		ok := true
 		for _, o := range hs {
